@@ -68,4 +68,21 @@ def flow_Server_handleWrapped : List (String × String) := [
   ("finished", "true")
 ]
 
+def flow_Server_serve : List (String × String) := [
+  ("sessionCtx.SessionID", "session"),
+  ("tlsConn,ok", "conn.(*tls.Conn)"),
+  ("_", "conn.SetReadDeadline(time.Now().Add(s.ReadTimeout))"),
+  ("_", "conn.SetWriteDeadline(time.Now().Add(s.WriteTimeout))"),
+  ("err", "tlsConn.Handshake()"),
+  ("sessionAuthHandler", "s.SessionAuthHandler"),
+  ("sessionCtx.SessionAuth,err", "sessionAuthHandler(conn)"),
+  ("d", "NewDecoder(conn)"),
+  ("e", "NewEncoder(conn)"),
+  ("_", "conn.SetReadDeadline(time.Now().Add(s.ReadTimeout))"),
+  ("err", "d.Decode(req)"),
+  ("resp,err", "s.handleBatch(sessionCtx, req)"),
+  ("_", "conn.SetWriteDeadline(time.Now().Add(s.WriteTimeout))"),
+  ("err", "e.Encode(resp)")
+]
+
 end Kmip.ExpectFlow
